@@ -36,6 +36,7 @@ type Ev struct {
 	Seq   uint64
 	Point string
 	Att   int
+	Req   int // the request the attempt belongs to, as the driver knows it
 	Dir   string
 	Key   string
 	St    iobroker.VerifState
@@ -47,7 +48,8 @@ type Half struct {
 	Dir  string // "in" / "out"
 	Key  string // real key passed ("" for halves of /io, whose key the broker chooses)
 	Req  int
-	Addr string
+	Addr string // what the broker is told the peer's address is
+	Tag  string // unique per attempt / request: marks its log records
 	IO   bool
 
 	gate     chan struct{}
@@ -83,6 +85,8 @@ type World struct {
 	Och    chan opshell.CLine
 	Gated  bool
 	Record bool
+	// SameHost makes every attempt come from one address, as streams dialled from one machine do.
+	SameHost bool
 
 	pendingGated bool
 	// OnNewHalf, if set, is called for every new attempt before its Connect* call starts.
@@ -120,7 +124,7 @@ func installHook() {
 			w := ai.w
 			if w.Record {
 				w.mu.Lock()
-				w.Trace = append(w.Trace, Ev{Seq: st.Seq, Point: point, Att: h.ID, Dir: h.Dir, Key: key, St: st})
+				w.Trace = append(w.Trace, Ev{Seq: st.Seq, Point: point, Att: h.ID, Req: h.Req, Dir: h.Dir, Key: key, St: st})
 				w.mu.Unlock()
 			}
 			if !w.Gated {
@@ -193,6 +197,13 @@ func (w *World) newHalf(id int, dir, key string, req int, addr string, isIO bool
 	return h
 }
 
+func (w *World) addrFor(tag string) string {
+	if w.SameHost {
+		return "192.0.2.9"
+	}
+	return tag
+}
+
 // Logger returns a logger for an attempt/request.
 func (w *World) Logger(tag string) *slog.Logger {
 	return slog.New(w.Log).With("vtag", tag)
@@ -200,8 +211,10 @@ func (w *World) Logger(tag string) *slog.Logger {
 
 // StartUni calls ConnectIn or ConnectOut in a new goroutine.
 func (w *World) StartUni(id int, dir, key string, req int, wkind string) *Half {
-	addr := fmt.Sprintf("att%d", id)
+	tag := fmt.Sprintf("att%d", id)
+	addr := w.addrFor(tag)
 	h := w.newHalf(id, dir, key, req, addr, false)
+	h.Tag = tag
 	h.WKind = wkind
 	ai := &attInfo{w: w}
 	if dir == "in" {
@@ -211,7 +224,7 @@ func (w *World) StartUni(id int, dir, key string, req int, wkind string) *Half {
 	}
 	ctx, cancel := context.WithCancel(context.WithValue(context.Background(), attKey{}, ai))
 	h.Cancel = cancel
-	sl := w.Logger(addr)
+	sl := w.Logger(tag)
 	go func() {
 		defer close(h.returned)
 		if dir == "in" {
@@ -225,15 +238,17 @@ func (w *World) StartUni(id int, dir, key string, req int, wkind string) *Half {
 
 // StartIO calls ConnectInOut in a new goroutine.
 func (w *World) StartIO(idIn, idOut, req int, wkind string) (*Half, *Half) {
-	addr := fmt.Sprintf("req%d", req)
+	tag := fmt.Sprintf("req%d", req)
+	addr := w.addrFor(tag)
 	hi := w.newHalf(idIn, "in", "", req, addr, true)
 	hi.WKind = wkind
 	ho := w.newHalf(idOut, "out", "", req, addr, true)
+	hi.Tag, ho.Tag = tag, tag
 	ai := &attInfo{w: w, in: hi, out: ho}
 	ctx, cancel := context.WithCancel(context.WithValue(context.Background(), attKey{}, ai))
 	hi.Cancel = cancel
 	ho.Cancel = cancel
-	sl := w.Logger(addr)
+	sl := w.Logger(tag)
 	ret := make(chan struct{})
 	hi.returned = ret
 	ho.returned = ret
